@@ -66,6 +66,9 @@ var c15Ignores = []string{
 	"LABEL|PROPERTY|UNDEFINED",  // matches nothing unless another pattern's (?i) leaks into it
 	"\\Qa.b",                    // unterminated quoting: literal text, matches nothing
 	"could not parse as YAML",   // the diagnostic of a file that is not YAML at all
+	" is",                       // white space at the edge of a pattern is part of the pattern
+	"label ",
+	"unknown\\. ",
 }
 
 func genC15Config(c *Chooser) (cfg string, entries map[string][]string, order []string) {
